@@ -126,6 +126,7 @@ MUTATIONS = {
         ('decode', 'tonic/src/codec/decode.rs', r'(\n\s*)self\.buf\.reserve\(len\);', r'', 'n/a'),
     ],
     'C07': [
+        ('decode', 'tonic/src/codec/decode.rs', r'Err\(err\) => self\.inner\.state = State::Error\(Some\(err\)\),', 'Err(_err) => {}', 'a failing end-of-stream status is dropped and the loop spins on the ended body'),
         ('codecbuf', 'tonic/src/codec/buffer.rs', r'if ret\.len\(\) > self\.len \{', 'if ret.len() < self.len {', 'the decoder is shown bytes beyond the frame'),
         ('codecbuf', 'tonic/src/codec/buffer.rs', r'self\.buf\.advance\(cnt\);\n        self\.len -= cnt;', 'self.buf.advance(cnt);', 'advance forgets to shrink the window'),
         ('prostcodec', 'tonic/src/codec/prost.rs', r'Status::internal\(error\.to_string\(\)\)', 'Status::unknown(error.to_string())', 'a protobuf parse error is reported as UNKNOWN'),
@@ -208,6 +209,7 @@ MUTATIONS = {
         ('reflection', 'tonic-reflection/src/server/mod.rs', r'for en in &msg\.enum_type \{', 'for en in msg.enum_type.iter().skip(1) {', 'first nested enum skipped (unsupported construct: must not alarm)'),
     ],
     'C17': [
+        ('webclient', 'tonic-web/src/call.rs', r'None => \*me\.as_mut\(\)\.project\(\)\.inner_done = true,', 'None => {}', 'the end of the inner body is not recorded: the loop polls the ended body forever'),
         ('webtrailers', 'tonic-web/src/call.rs', r'map\.append\(header_key, header_value\);', 'map.insert(header_key, header_value);', 'a repeated trailer name keeps only its last value'),
         ('webtrailers', 'tonic-web/src/call.rs', r'let value = &trailer\[colon \+ 1\.\.\];', 'let value = &trailer[colon..];', 'the value keeps the colon'),
         ('webtrailers', 'tonic-web/src/call.rs', r'cursor_pos = i \+ 2;', 'cursor_pos = i + 1;', 'the next row starts at the line feed'),
